@@ -68,7 +68,8 @@ def shaped(tier):
                  (10, 65, 1, True), (11, 1, 9, False), (12, 2, 11, True), (13, 1, 13, False), (14, 2, 17, False),
                  (15, 1, 33, True), (16, 1, 65, False), (17, 100, 1, False), (18, 1, 101, True)]
         if tier == "thorough":
-            specs += [(47, 10, 40, False), (5, 3, 400, True), (41, 5, 10, True), (40, 5, 5, True)]
+            specs += [(47, 10, 40, False), (5, 3, 400, True), (41, 5, 10, True), (40, 5, 5, True),
+                      (6, 80, 82, True)]       # 6560 tiles: more than 65 536 states in game C
         for seed, width, length, fd in specs:
             yield dict(kind="cli", seed=seed, width=width, length=length, rb=0.1, lb=0.1, tb=0.1, lt=0.3, max_reward=6,
                        force_down=fd)
